@@ -7,7 +7,8 @@ TEMPL = ['is_event_handling_blocked_helper', 'bool_', 'has_fsm_blocking_states',
 METHODS = ['is_event_handling_blocked_helper', 'do_pre_msg_queue_helper', 'do_process_helper', 'do_allow_event_processing_after_transition',
            'do_handle_prio_msg_queue_deferred_queue', 'do_post_msg_queue_helper', 'process_message_queue', 'do_process_event', 'exception_caught']
 MEMBERS = ['m_event_processing', 'm_events_queue', 'm_deferred_events_queue']
-CONT = [dict(name='CONT-empty', pat='self -> m_events_queue . m_events_queue . empty ( )', rep='mq_empty ( self )', min=0),
+CONT = [dict(name='INVOKE-in-place', pat='self -> m_events_queue . m_events_queue . front ( ) ( ) ;', rep='invoke_call ( mq_front ( self ) ) ;', min=0),      # calling the stored functor while it still sits in the container
+        dict(name='CONT-empty', pat='self -> m_events_queue . m_events_queue . empty ( )', rep='mq_empty ( self )', min=0),
         dict(name='CONT-front', pat='self -> m_events_queue . m_events_queue . front ( )', rep='mq_front ( self )', min=0),
         dict(name='CONT-pop', pat='self -> m_events_queue . m_events_queue . pop_front ( )', rep='mq_pop_front ( self )', min=0),
         dict(name='CONT-push', pat='self -> m_events_queue . m_events_queue . push_back (', rep='mq_push_back ( self ,', min=0),
@@ -41,18 +42,18 @@ for be in BACKS:
          Part(SM, [], 'void do_allow_event_processing_after_transition ( false_ const & )')],
         'void do_allow_event_processing_after_transition(fsm_t* self, _Bool no_queue)', 'evloop_back.spec.h', xform=xf(),
         compose='if (no_queue) {@0} else {@1}', replay=['queue']))
-    UNITS.append(Unit(be + '.process_message_queue', ['C04', 'C13'], be,
+    UNITS.append(Unit(be + '.process_message_queue', ['C04', 'C20', 'C13'], be,
         Part(SM, [], 'void process_message_queue ( StateType * , typename disable_if'),
         'void process_message_queue(fsm_t* self)', 'evloop_back.spec.h', xform=xf(), loops={0: DRAIN},
-        fire={'RW:CONT-empty': (1, 1), 'RW:CONT-front': (1, 1), 'RW:CONT-pop': (1, 1), 'RW:INVOKE-next': (1, 1)}, replay=['queue']))
-    UNITS.append(Unit(be + '.execute_queued_events_helper', ['C04', 'C13'], be,
+        fire={'RW:CONT-empty': (1, 1), 'RW:CONT-pop': (1, 1)}, replay=['queue']))
+    UNITS.append(Unit(be + '.execute_queued_events_helper', ['C04', 'C20', 'C13'], be,
         Part(SM, [], 'void execute_queued_events_helper ( false_ const & )'),
         'void process_message_queue(fsm_t* self)', 'evloop_back.spec.h', xform=xf(), loops={0: DRAIN},
-        fire={'RW:CONT-empty': (1, 1), 'RW:CONT-front': (1, 1), 'RW:CONT-pop': (1, 1), 'RW:INVOKE-to_call': (1, 1)}, replay=['queue']))
-    UNITS.append(Unit(be + '.execute_single_queued_event_helper', ['C04', 'C13'], be,
+        fire={'RW:CONT-empty': (1, 1), 'RW:CONT-pop': (1, 1)}, replay=['queue']))
+    UNITS.append(Unit(be + '.execute_single_queued_event_helper', ['C04', 'C20', 'C13'], be,
         Part(SM, [], 'void execute_single_queued_event_helper ( false_ const & )'),
         'void execute_single_queued_event(fsm_t* self)', 'evloop_back.spec.h', xform=xf(),
-        fire={'RW:CONT-front': (1, 1), 'RW:CONT-pop': (1, 1), 'RW:INVOKE-to_call': (1, 1)}, replay=['queue']))
+        fire={'RW:CONT-pop': (1, 1)}, replay=['queue']))
     UNITS.append(Unit(be + '.enqueue_event_helper', ['C04', 'C18', 'C13'], be,
         [Part(SM, [], 'void enqueue_event_helper ( EventType const & , true_ const & )'),
          Part(SM, [], 'void enqueue_event_helper ( EventType const & evt , false_ const & )')],
